@@ -145,6 +145,40 @@ pub fn run_c05(seed: u64, n: usize, out: &mut Out) {
             emit(out, &case, &e_un, &rules, &resources, &q, "chk-unoptimized");
         }
     }
+    // large families: however many rules of one bucket are fusable together, every one of them keeps blocking its
+    // own URL (sizes around the powers of two a piecewise fusion would use)
+    for round in 0..(n / 60).max(2) {
+        let sizes = [31usize, 32, 33, 63, 64, 65, 66, 127, 128, 129, 130, 193, 257];
+        let size = sizes[r.below(sizes.len())];
+        let fam: &str = r.pick(&["bigfam", "bulkzone"]);
+        let opt: &str = r.pick(&["", "$script", "$image,third-party", "$important"]);
+        let mut lines: Vec<String> = (0..size).map(|i| format!("/{}/k{}x{}", fam, i, opt)).collect();
+        if r.pct(50) {
+            lines.push(format!("@@/{}/k{}x$xhr", fam, size / 2));
+        }
+        if r.pct(50) {
+            lines.extend(gen::cluster(&mut r, &gen::ALL_ON));
+        }
+        let e_opt = build(&lines, true, &[], &resources);
+        let e_un = build(&lines, false, &[], &resources);
+        let mut e_live = build(&lines, false, &[], &resources);
+        e_live.verif_blocker_mut().optimize();
+        if round % 2 == 1 {
+            e_live.verif_blocker_mut().optimize();
+        }
+        let ty = if opt.contains("image") { "image" } else { "script" };
+        for i in 0..size {
+            let u = format!("https://cdn.test/{}/k{}x", fam, i);
+            if let Some(q) = make_req(&u, "https://shop.test/", ty) {
+                let (a, b, c) = (e_opt.check_network_request(&q.req), e_un.check_network_request(&q.req), e_live.check_network_request(&q.req));
+                if !b.matched || a.matched != b.matched || c.matched != b.matched || a.important != b.important || c.important != b.important {
+                    out.fail("large-fusable-family-lost-a-rule", None, json!({"family": format!("/{}/k<i>x{} for i < {}", fam, opt, size), "rule_index": i, "url": u, "type": ty,
+                        "optimized": a.matched, "unoptimized": b.matched, "optimized_live": c.matched}));
+                }
+                out.bump("large_family_probes");
+            }
+        }
+    }
 }
 
 // ------------------------------------------------------------------------------------------ C04
@@ -347,6 +381,43 @@ pub fn run_c04(seed: u64, n: usize, out: &mut Out) {
                     out.fail("adding-blocking-rule-unblocked-request", None, desc.clone());
                 }
                 out.bump("monotonicity_pairs");
+            }
+            // the same decision asked through the several-engines entry point: with both flags off it is the plain
+            // check; `force_check_exceptions` only adds the exception lookup when nothing blocks; with
+            // `previously_matched_rule` only important rules and exceptions are consulted
+            for (e, ls) in [(&e0, &lines), (&e1, &with_x)] {
+                let b = e.check_network_request(&q.req);
+                let s00 = e.check_network_request_subset(&q.req, false, false);
+                let s01 = e.check_network_request_subset(&q.req, false, true);
+                let s10 = e.check_network_request_subset(&q.req, true, false);
+                let s11 = e.check_network_request_subset(&q.req, true, true);
+                let any_exc = s01.exception.is_some();
+                let mut bad: Vec<&str> = vec![];
+                if (s00.matched, s00.important, &s00.exception, &s00.filter) != (b.matched, b.important, &b.exception, &b.filter) {
+                    bad.push("flags off differs from the plain check");
+                }
+                if s01.matched != b.matched || s01.filter != b.filter || (b.filter.is_some() && s01.exception != b.exception) {
+                    bad.push("force_check_exceptions changed the decision");
+                }
+                for s in [&s10, &s11] {
+                    // (something matched before: the request stays blocked unless an exception applies here)
+                    if s.matched != s.exception.is_none() || s.important != b.important || s.filter.is_some() != b.important {
+                        bad.push("previously_matched_rule: only an important rule is looked up, and only an exception unblocks");
+                    }
+                    if !b.important && s.exception.is_some() != any_exc {
+                        bad.push("previously_matched_rule: the exception lookup is not the forced one");
+                    }
+                    if b.important && s.exception.is_some() {
+                        bad.push("previously_matched_rule: exception reported over an important rule");
+                    }
+                }
+                if !bad.is_empty() {
+                    out.fail("subset-check-flags", None, json!({"rules": ls, "optimize": optimize, "tags": tags, "url": u, "source": s, "type": t, "broken": bad,
+                        "plain": {"matched": b.matched, "important": b.important, "exception": b.exception, "filter": b.filter},
+                        "force_only": {"matched": s01.matched, "exception": s01.exception, "filter": s01.filter},
+                        "previously_matched": {"matched": s10.matched, "exception": s10.exception, "filter": s10.filter}}));
+                }
+                out.bump("subset_flag_probes");
             }
             if !rules0.is_empty() {
                 let case = Case { lines: lines.clone(), optimize, tags: tags.clone() };
